@@ -3,6 +3,21 @@
 //! ops:  `init <names>` | `local <names>` | `radd <names>` | `rrem <names>`
 //! impl: `<events> <retained>`  where events = `-` or `A:<names>`/`R:<names>` joined by `+`
 //!       (names hex, sorted, comma-joined) and retained = sorted key set of the connection's map/set
+//!
+//! End-to-end ops (a REAL `Connection`, hook `verif_c10::Conn`, probe handler with a scripted
+//! `listen_protocol()` set):
+//!   `new <names>`            Connection::new with the handler advertising <names>
+//!   `steps <s;s;…>`          script the next `ConnectionHandler::poll` calls: `P` Pending, `P=<names>` change
+//!                            the advertised set then Pending, `E` / `E=<names>` (then) NotifyBehaviour,
+//!                            `RA=<names>` / `RR=<names>` ReportRemoteProtocols(Added/Removed)
+//!   `onev <N|S=<names>;…>`   script `on_connection_event`: at the next Local/RemoteProtocolsChange received,
+//!                            do nothing / change the advertised set
+//!   `beh <names>`            `Connection::on_behaviour_event`: the handler changes its advertised set
+//!   `poll`                   one `Connection::poll`
+//! impl: `<-|pending|event> ev=<LA:…+LR:…+RA:…+RR:…|-> em=<A:…+R:…|-> adv=<names> lk=<names> rk=<names>`
+//!   ev = Local/Remote ProtocolsChange events the handler received during the op (in order), em = the
+//!   remote reports the handler emitted, adv = what `listen_protocol()` advertises now, lk / rk = the
+//!   connection's retained local keys / remote set.
 use hcore::{Args, Out, Rng};
 use libp2p_swarm::{verif_c11, StreamProtocol};
 use std::collections::HashSet;
@@ -141,8 +156,13 @@ pub fn run(args: &Args, out: &mut Out) {
         for (i, (_, ops)) in cases.iter().enumerate() {
             out.case(i as u64, "replay nt=1");
             let mut sut = Sut { local: None, remote: Default::default() };
+            let mut rig = e2e::Rig::empty();
             for op in ops {
-                exec(out, &mut sut, &op[0], &parse_list(&op[1]));
+                if is_e2e(&op[0]) {
+                    exec_e2e(out, &mut rig, op);
+                } else {
+                    exec(out, &mut sut, &op[0], &parse_list(&op[1]));
+                }
             }
             out.end();
         }
@@ -206,5 +226,375 @@ pub fn run(args: &Args, out: &mut Out) {
         }
         out.end();
         idx += 1;
+    }
+    run_e2e(args, out, &mut idx);
+}
+
+// =============================================================================================
+// end-to-end: the real `Connection::poll`
+// =============================================================================================
+mod e2e {
+    use super::{list_tok, names_tok, parse_list};
+    use libp2p_core::muxing::{StreamMuxer, StreamMuxerBox, StreamMuxerEvent};
+    use libp2p_core::upgrade::{DeniedUpgrade, InboundUpgrade, UpgradeInfo};
+    use libp2p_swarm::handler::{
+        ConnectionEvent, ConnectionHandler, ConnectionHandlerEvent, ProtocolSupport, ProtocolsChange, SubstreamProtocol,
+    };
+    use libp2p_swarm::verif_c10::{Conn, Polled};
+    use libp2p_swarm::StreamProtocol;
+    use std::collections::{HashSet, VecDeque};
+    use std::pin::Pin;
+    use std::sync::{Arc, Mutex};
+    use std::task::{Context, Poll};
+    use std::time::Duration;
+
+    struct IdleMuxer;
+    impl StreamMuxer for IdleMuxer {
+        type Substream = futures::io::Cursor<Vec<u8>>;
+        type Error = std::io::Error;
+        fn poll_inbound(self: Pin<&mut Self>, _: &mut Context<'_>) -> Poll<Result<Self::Substream, Self::Error>> {
+            Poll::Pending
+        }
+        fn poll_outbound(self: Pin<&mut Self>, _: &mut Context<'_>) -> Poll<Result<Self::Substream, Self::Error>> {
+            Poll::Pending
+        }
+        fn poll_close(self: Pin<&mut Self>, _: &mut Context<'_>) -> Poll<Result<(), Self::Error>> {
+            Poll::Ready(Ok(()))
+        }
+        fn poll(self: Pin<&mut Self>, _: &mut Context<'_>) -> Poll<Result<StreamMuxerEvent, Self::Error>> {
+            Poll::Pending
+        }
+    }
+
+    /// inbound upgrade advertising an arbitrary list of names (duplicates / invalid names allowed)
+    #[derive(Clone)]
+    pub struct ListUpgrade(Vec<String>);
+    impl UpgradeInfo for ListUpgrade {
+        type Info = String;
+        type InfoIter = std::vec::IntoIter<String>;
+        fn protocol_info(&self) -> Self::InfoIter {
+            self.0.clone().into_iter()
+        }
+    }
+    impl<C> InboundUpgrade<C> for ListUpgrade {
+        type Output = C;
+        type Error = std::convert::Infallible;
+        type Future = futures::future::Ready<Result<C, Self::Error>>;
+        fn upgrade_inbound(self, c: C, _: String) -> Self::Future {
+            futures::future::ready(Ok(c))
+        }
+    }
+
+    pub enum Step {
+        Pend(Option<Vec<String>>),
+        Event(Option<Vec<String>>),
+        Remote(bool, Vec<String>),
+    }
+    #[derive(Default)]
+    pub struct HState {
+        adv: Vec<String>,
+        steps: VecDeque<Step>,
+        on_ev: VecDeque<Option<Vec<String>>>,
+        log: Vec<String>,
+        emitted: Vec<String>,
+        /// `ConnectionHandler::poll` calls during the current op (a `Connection::poll` that never
+        /// returns is reported as a panic instead of hanging the harness)
+        polls: u32,
+    }
+    pub struct Probe(Arc<Mutex<HState>>);
+    impl ConnectionHandler for Probe {
+        type FromBehaviour = Vec<String>;
+        type ToBehaviour = ();
+        type InboundProtocol = ListUpgrade;
+        type OutboundProtocol = DeniedUpgrade;
+        type InboundOpenInfo = ();
+        type OutboundOpenInfo = ();
+        fn listen_protocol(&self) -> SubstreamProtocol<Self::InboundProtocol> {
+            SubstreamProtocol::new(ListUpgrade(self.0.lock().unwrap().adv.clone()), ())
+        }
+        fn connection_keep_alive(&self) -> bool {
+            true
+        }
+        fn poll(&mut self, _: &mut Context<'_>) -> Poll<ConnectionHandlerEvent<Self::OutboundProtocol, (), ()>> {
+            let mut h = self.0.lock().unwrap();
+            h.polls += 1;
+            if h.polls > 100_000 {
+                h.polls = 0;
+                drop(h);
+                panic!("Connection::poll keeps looping");
+            }
+            match h.steps.pop_front() {
+                None => Poll::Pending,
+                Some(Step::Pend(set)) => {
+                    if let Some(l) = set {
+                        h.adv = l;
+                    }
+                    Poll::Pending
+                }
+                Some(Step::Event(set)) => {
+                    if let Some(l) = set {
+                        h.adv = l;
+                    }
+                    Poll::Ready(ConnectionHandlerEvent::NotifyBehaviour(()))
+                }
+                Some(Step::Remote(add, names)) => {
+                    h.emitted.push(format!("{}:{}", if add { "A" } else { "R" }, list_tok(&names)));
+                    let set: HashSet<StreamProtocol> =
+                        names.into_iter().map(|n| StreamProtocol::try_from_owned(n).expect("valid remote name")).collect();
+                    Poll::Ready(ConnectionHandlerEvent::ReportRemoteProtocols(if add {
+                        ProtocolSupport::Added(set)
+                    } else {
+                        ProtocolSupport::Removed(set)
+                    }))
+                }
+            }
+        }
+        fn on_behaviour_event(&mut self, l: Vec<String>) {
+            self.0.lock().unwrap().adv = l;
+        }
+        fn on_connection_event(&mut self, event: ConnectionEvent<Self::InboundProtocol, Self::OutboundProtocol>) {
+            let tok = |c: ProtocolsChange<'_>| -> String {
+                match c {
+                    ProtocolsChange::Added(a) => format!("A:{}", names_tok(&a.map(|p| p.as_ref().to_owned()).collect::<Vec<_>>())),
+                    ProtocolsChange::Removed(r) => format!("R:{}", names_tok(&r.map(|p| p.as_ref().to_owned()).collect::<Vec<_>>())),
+                }
+            };
+            let t = match event {
+                ConnectionEvent::LocalProtocolsChange(c) => format!("L{}", tok(c)),
+                ConnectionEvent::RemoteProtocolsChange(c) => format!("R{}", tok(c)),
+                _ => return,
+            };
+            let mut h = self.0.lock().unwrap();
+            h.log.push(t);
+            if let Some(Some(l)) = h.on_ev.pop_front() {
+                h.adv = l;
+            }
+        }
+    }
+
+    pub struct Rig {
+        conn: Option<Conn<Probe>>,
+        hs: Arc<Mutex<HState>>,
+    }
+
+    fn opt_list(tok: &str, prefix: &str) -> Option<Option<Vec<String>>> {
+        if tok == prefix {
+            Some(None)
+        } else {
+            tok.strip_prefix(&format!("{prefix}=")).map(|l| Some(parse_list(l)))
+        }
+    }
+
+    impl Rig {
+        pub fn empty() -> Rig {
+            Rig { conn: None, hs: Default::default() }
+        }
+        fn line(&mut self, res: &str) -> String {
+            let conn = self.conn.as_ref().unwrap();
+            let mut h = self.hs.lock().unwrap();
+            let ev = if h.log.is_empty() { "-".to_string() } else { h.log.join("+") };
+            let em = if h.emitted.is_empty() { "-".to_string() } else { h.emitted.join("+") };
+            h.log.clear();
+            h.emitted.clear();
+            h.polls = 0;
+            format!(
+                "{res} ev={ev} em={em} adv={} lk={} rk={}",
+                list_tok(&h.adv),
+                names_tok(&conn.local_protocols()),
+                names_tok(&conn.remote_protocols())
+            )
+        }
+        pub fn op(&mut self, op: &[String]) -> String {
+            match op[0].as_str() {
+                "new" => {
+                    self.hs = Default::default();
+                    self.hs.lock().unwrap().adv = parse_list(&op[1]);
+                    let c = Conn::new(StreamMuxerBox::new(IdleMuxer), Probe(self.hs.clone()), 0, Duration::from_secs(1_000_000));
+                    self.conn = Some(c);
+                    self.line("-")
+                }
+                "steps" => {
+                    let mut h = self.hs.lock().unwrap();
+                    for t in op[1].split(';') {
+                        let st = if let Some(s) = opt_list(t, "P") {
+                            Step::Pend(s)
+                        } else if let Some(s) = opt_list(t, "E") {
+                            Step::Event(s)
+                        } else if let Some(Some(l)) = opt_list(t, "RA") {
+                            Step::Remote(true, l)
+                        } else if let Some(Some(l)) = opt_list(t, "RR") {
+                            Step::Remote(false, l)
+                        } else {
+                            panic!("bad step {t}")
+                        };
+                        h.steps.push_back(st);
+                    }
+                    drop(h);
+                    self.line("-")
+                }
+                "onev" => {
+                    let mut h = self.hs.lock().unwrap();
+                    for t in op[1].split(';') {
+                        let e = if t == "N" { None } else { opt_list(t, "S").expect("bad onev").map(Some).unwrap_or(None) };
+                        h.on_ev.push_back(e);
+                    }
+                    drop(h);
+                    self.line("-")
+                }
+                "beh" => {
+                    self.conn.as_mut().unwrap().on_behaviour_event(parse_list(&op[1]));
+                    self.line("-")
+                }
+                "poll" => {
+                    let w = futures::task::noop_waker();
+                    let mut cx = Context::from_waker(&w);
+                    let r = self.conn.as_mut().unwrap().poll(&mut cx);
+                    let res = match r {
+                        Polled::Pending => "pending".to_string(),
+                        Polled::Event => "event".into(),
+                        Polled::KeepAliveTimeout => "closed".into(),
+                        Polled::OtherError(e) => format!("error:{}", e.replace(' ', "_")),
+                    };
+                    self.line(&res)
+                }
+                _ => panic!("bad op"),
+            }
+        }
+    }
+}
+
+fn is_e2e(op: &str) -> bool {
+    matches!(op, "new" | "steps" | "onev" | "beh" | "poll")
+}
+
+fn exec_e2e(out: &mut Out, rig: &mut e2e::Rig, op: &[String]) {
+    out.op(&op.join(" "));
+    match hcore::guarded(|| rig.op(op)) {
+        Ok(s) => out.imp(&s),
+        Err(m) => out.imp(&format!("panic {m}")),
+    }
+}
+
+fn strs(v: &[&str]) -> Vec<String> {
+    v.iter().map(|x| x.to_string()).collect()
+}
+
+fn e2e_script(out: &mut Out, idx: &mut u64, class: &str, ops: &[String]) {
+    out.case(*idx, &format!("{class} nt=1"));
+    *idx += 1;
+    let mut rig = e2e::Rig::empty();
+    for o in ops {
+        let t: Vec<String> = o.split_whitespace().map(|x| x.to_string()).collect();
+        exec_e2e(out, &mut rig, &t);
+    }
+    out.end();
+}
+
+fn e2e_rand_list(rng: &mut Rng, alpha: &[&str], prev: &[String]) -> String {
+    list_tok(&rand_list(rng, alpha, prev))
+}
+
+fn run_e2e(args: &Args, out: &mut Out, idx: &mut u64) {
+    let a = hcore::hex(b"/a");
+    let b = hcore::hex(b"/b");
+    let x = hcore::hex(b"x");
+    // the four places where a handler can change its advertised set, each followed by a quiet poll
+    let lists = [format!("{a}"), format!("{a},{b}"), format!("{b},{b}"), format!("{x}"), "-".to_string(), format!("{a},{x},{a}")];
+    for l0 in &lists {
+        for l1 in &lists {
+            // (a) inside `poll` returning Pending, (b) inside `poll` returning an event,
+            // (c) in on_behaviour_event, (d) in on_connection_event
+            e2e_script(out, idx, "place-a", &[format!("new {l0}"), "poll".into(), format!("steps P={l1}"), "poll".into(), "poll".into()]);
+            e2e_script(out, idx, "place-b", &[format!("new {l0}"), "poll".into(), format!("steps E={l1}"), "poll".into(), "poll".into()]);
+            e2e_script(out, idx, "place-c", &[format!("new {l0}"), "poll".into(), format!("beh {l1}"), "poll".into(), "poll".into()]);
+            for l2 in &lists {
+                e2e_script(
+                    out,
+                    idx,
+                    "place-d",
+                    &[format!("new {l0}"), "poll".into(), format!("onev S={l2}"), format!("steps P={l1}"), "poll".into(), "poll".into()],
+                );
+                e2e_script(
+                    out,
+                    idx,
+                    "place-d-remote",
+                    &[format!("new {l0}"), "poll".into(), format!("onev S={l2}"), format!("steps RA={a},{b};P={l1}"), "poll".into(), "poll".into()],
+                );
+            }
+        }
+    }
+    // remote reports incl. duplicates and unknown removals
+    e2e_script(
+        out,
+        idx,
+        "remote",
+        &strs(&[
+            &format!("new {a}"),
+            &format!("steps RA={a},{a},{b};RA={a};RR={b},{b};RR={b};RR={x_valid};RA=-;RR=-", x_valid = hcore::hex(b"/zz")),
+            "poll",
+            "poll",
+        ]),
+    );
+    let n = args.n(1500, 40_000);
+    for i in 0..n {
+        let mut rng = Rng::for_case(args.seed ^ 0xE2E, i);
+        out.case(*idx, "e2e-random nt=1");
+        *idx += 1;
+        let mut rig = e2e::Rig::empty();
+        let mut prev = rand_list(&mut rng, &LOCAL_NAMES, &[]);
+        let t: Vec<String> = vec!["new".into(), list_tok(&prev)];
+        exec_e2e(out, &mut rig, &t);
+        let steps = 2 + rng.usize(10);
+        for _ in 0..steps {
+            let o: Vec<String> = match rng.below(10) {
+                0..=3 => vec!["poll".into()],
+                4..=6 => {
+                    let k = 1 + rng.usize(3);
+                    let mut parts = vec![];
+                    for _ in 0..k {
+                        parts.push(match rng.below(8) {
+                            0 => "P".to_string(),
+                            1 | 2 => {
+                                let l = rand_list(&mut rng, &LOCAL_NAMES, &prev);
+                                prev = l.clone();
+                                format!("P={}", list_tok(&l))
+                            }
+                            3 => "E".to_string(),
+                            4 => {
+                                let l = rand_list(&mut rng, &LOCAL_NAMES, &prev);
+                                prev = l.clone();
+                                format!("E={}", list_tok(&l))
+                            }
+                            5 | 6 => format!("RA={}", e2e_rand_list(&mut rng, &REMOTE_NAMES, &[])),
+                            _ => format!("RR={}", e2e_rand_list(&mut rng, &REMOTE_NAMES, &[])),
+                        });
+                    }
+                    vec!["steps".into(), parts.join(";")]
+                }
+                7 => {
+                    let l = rand_list(&mut rng, &LOCAL_NAMES, &prev);
+                    prev = l.clone();
+                    vec!["beh".into(), list_tok(&l)]
+                }
+                _ => {
+                    let k = 1 + rng.usize(2);
+                    let parts: Vec<String> = (0..k)
+                        .map(|_| {
+                            if rng.chance(1, 3) {
+                                "N".to_string()
+                            } else {
+                                let l = rand_list(&mut rng, &LOCAL_NAMES, &prev);
+                                format!("S={}", list_tok(&l))
+                            }
+                        })
+                        .collect();
+                    vec!["onev".into(), parts.join(";")]
+                }
+            };
+            exec_e2e(out, &mut rig, &o);
+        }
+        exec_e2e(out, &mut rig, &["poll".to_string()]);
+        exec_e2e(out, &mut rig, &["poll".to_string()]);
+        out.end();
     }
 }
